@@ -4,9 +4,17 @@ Every case is one history of store operations.  It is run on the real code
   * once "observing" (after every operation: did it raise, len(store), store[0..len), and after
     flush-like operations numpy.load of the file),
   * once "plain" with the file object NpyArray opens wrapped by an interposer that logs every
-    open/seek/write/truncate/flush/close (and the memmap writes at NpyArray.__setitem__),
+    open/seek/write/truncate/flush/close, and elfi.store's numpy.memmap replaced by a subclass that logs
+    every store through the mapping,
   * and once per crash point k: a forked child whose interposer calls os._exit(0) on entering
-    counted file operation number k; the parent numpy.load()s what is left behind.
+    low-level operation number k (file-object calls AND writes through the memmap are numbered; k =
+    total is the kill at the end of the history, store still open, nothing flushed); Python's
+    buffers die with the child, what the OS already has (page cache, memmap stores included) stays:
+    the parent numpy.load()s what is left behind.
+Queries (store[i], scans over all batches, len(store), i in store, len(store.array)) are operations
+of a history like the others and are generated anywhere, in particular between an append and an
+overwrite: a read creates the memmap, and from then on overwrites reach the file without any
+file-object call in between.
 The Coq side replays the history in the model (`agree`: same low-level operations, same reports,
 same file content at every crash point under CPython's buffering) and evaluates the property on the
 implementation's outputs (`ok`: reports = in-memory list of batches; every crash after a flush
@@ -131,6 +139,37 @@ class _Proxy:
         return r
 
 
+class _KMemmap(np.memmap):
+    """The mapping NpyArray gets in the child: a store through it is a numbered low-level operation
+    (kill point on entering it) and is logged like the file-object calls."""
+    _ctx = None
+
+    def __setitem__(self, key, value):
+        c = _KMemmap._ctx
+        if c is None:
+            return np.memmap.__setitem__(self, key, value)
+        c.tick()
+        try:
+            np.memmap.__setitem__(self, key, value)
+        except BaseException:
+            c.count -= 1          # nothing was stored: not an operation
+            raise
+        if isinstance(key, slice) and key.step in (None, 1) and isinstance(key.start, (int, np.integer)):
+            c.log.append(['mem', int(key.start), cells(np.asarray(value))])
+        else:
+            c.log.append(['rawmem', repr(key)])
+
+
+class _NpProxy:
+    """`np` as elfi.store sees it in the child: numpy with `memmap` replaced by _KMemmap."""
+    def __init__(self, real):
+        object.__setattr__(self, '_real', real)
+        object.__setattr__(self, 'memmap', _KMemmap)
+
+    def __getattr__(self, n):
+        return getattr(self._real, n)
+
+
 def make_batch(case, vals, kind='ok'):
     dt = np.dtype(case['dtype'])
     shape = (len(vals),) + tuple(case['rowshape'])
@@ -162,13 +201,10 @@ def run_history(case, kill_at, observe, fname):
         ctx.log.append(['open', 'w' in mode])
         return _Proxy(f, ctx)
     st.open = popen
-    orig_setitem = st.NpyArray.__setitem__
-
-    def setitem(self, sl, value):
-        r = orig_setitem(self, sl, value)
-        ctx.log.append(['mem', int(sl.start), cells(np.asarray(value))])
-        return r
-    st.NpyArray.__setitem__ = setitem
+    if isinstance(st.np, _NpProxy):
+        raise RuntimeError('elfi.store.np already patched')
+    _KMemmap._ctx = ctx
+    st.np = _NpProxy(st.np)
 
     bs = case['bs']
     logs, obs = [], []
@@ -199,6 +235,15 @@ def run_history(case, kill_at, observe, fname):
                 store = st.NpyStore(fname, bs, n_batches=op[1])
             elif k == 'read':
                 np.array(store[op[1]])
+            elif k == 'query':         # no file operation, no change of the object
+                if op[1] == 'len':
+                    len(store)
+                elif op[1] == 'contains':
+                    op[2] in store
+                elif op[1] == 'arraylen':
+                    len(store.array)
+                else:
+                    raise RuntimeError('unknown query %r' % (op,))
             else:
                 raise RuntimeError('unknown op %r' % (op,))
         except (IndexError, ValueError, OverflowError, FileNotFoundError):
@@ -398,6 +443,25 @@ def prefix_failures(case, obs):
     return []
 
 
+def history_shape(ops, logs):
+    """Histogram keys describing the durability-relevant shape of a history, from the plain run's log:
+    overwrites (memmap writes) by what the object had at that moment -- was the memmap created by an
+    earlier query or by the overwrite itself, did the overwrite have to bring a pending header to the
+    file first -- and whether the history ends with the store open after a content change."""
+    keys = []
+    for op, l in zip(ops, logs[1:]):
+        kinds = [e[0] for e in l]
+        if op[0] == 'set' and 'mem' in kinds:
+            keys.append('overwrite:header_%s,memmap_%s' % ('pending' if 'header' in kinds else 'clean',
+                                                            'created_now' if 'seekend' in kinds else 'from_earlier_read'))
+        if op[0] == 'read' and 'seekend' in kinds:
+            keys.append('read_creates_memmap')
+    last_fl = max([i for i, o in enumerate(ops) if o[0] in ('flush', 'close', 'reopen', 'pickle', 'open')] + [-1])
+    if any(o[0] in ('set', 'del', 'clear') for o in ops[last_fl + 1:]):
+        keys.append('ends_open_with_unflushed_changes')
+    return keys
+
+
 # ----------------------------------------------------------------------------------------------
 # Coq printers
 # ----------------------------------------------------------------------------------------------
@@ -441,6 +505,8 @@ def c_hop(case, op):
         return 'Read %d' % op[1]
     if k == 'open':
         return 'Open %d' % op[1]
+    if k == 'query':
+        return 'Query'
     return {'clear': 'Clear', 'flush': 'Flush', 'close': 'Close', 'reopen': 'Reopen', 'pickle': 'Pickle'}[k]
 
 
@@ -451,10 +517,17 @@ class C06(PropCheck):
     case_type = 'Npy.case'
     preds = (('Npy.agree', 'agree'), ('Npy.ok', 'ok'))
     chunk = 8
-    rule = ('histories of NpyStore operations (append/overwrite/delete-last/clear/flush/close+reopen/pickle+unpickle/read, '
+    rule = ('histories of NpyStore operations (append/overwrite/delete-last/clear/flush/close+reopen/pickle+unpickle, with queries '
+            '-- store[i], scans over all batches, a read past the visible end, len(store), i in store, len(store.array) -- interleaved anywhere '
+            'at a per-history density of 0-50%, '
             'plus a malformed stream: index past the end, deleting a middle batch, wrong row shape/dtype, operations on a closed '
-            'store) over dtypes <f8 <i4 |b1, row shapes () (3,) (2,2), batch sizes 1-4, each replayed with a kill at every counted '
-            'file operation; non-trivial = history with a flush-like operation followed by at least one content-changing operation '
+            'store) over dtypes <f8 <i4 |b1, row shapes () (3,) (2,2), batch sizes 1-4, each replayed with a kill on entering every '
+            'low-level operation (file-object calls and writes through the memmap alike) and at the end of the history with the store '
+            'still open (os._exit in a forked child: Python buffers lost, page cache kept); a durability-ordering stream (appends, a flush-like operation, '
+            'then 2-5 segments each bringing the object into one of the states (header pending or not) x (memmap present or not) by '
+            'append/flush/reopen/pickle/read/scan before one overwrite/append/delete-last/clear, queries at 20-80%, ending open with nothing '
+            'flushed; histogram keys durable_state=*, overwrite:header_{pending,clean},memmap_{created_now,from_earlier_read} (from the logged trace)); '
+            'non-trivial = history with a flush-like operation followed by at least one content-changing operation '
             'and at least 10 crash points; distinct by (dtype,row shape,batch size,operations).  Prefix stores (n_batches smaller than the '
             'number of batches in the file): (a) histories with open = NpyStore(filename, batch_size, n_batches=k), k below the number of '
             'batches in the file, followed by a write at index n_batches and further append/overwrite/delete-last/flush/pickle/read/open/reopen/'
@@ -464,15 +537,41 @@ class C06(PropCheck):
             'batches and flushed; then a write at index n_batches and further append/overwrite/delete-last/flush/pickle/read/clear operations; '
             'after every operation len(store) and every store[i], after flush-like operations the rows of numpy.load(file) at the visible '
             'batches; non-trivial = the file holds more batches than the store exposes and the write at index n_batches was carried out')
-    trusted = ('the file-operation interposer of harness/c06.py (proxy around the file object NpyArray opens; os._exit at a counted operation); '
+    trusted = ('the low-level-operation interposer of harness/c06.py (proxy around the file object NpyArray opens, numpy.memmap subclass handed to '
+               'elfi.store whose __setitem__ is numbered and logged; os._exit on entering a numbered operation); '
                'kill = os._exit: user-space buffers are lost, the page cache (including memmap writes) survives; power loss / filesystem reordering not modelled',
                'numpy.load as the reader of the file left behind')
 
     # -- generation ----------------------------------------------------------------------------
+    def add_queries(self, ops, nb, p, tag='q'):
+        """With probability p, append one query step after the operation just generated: a read of
+        one batch, a scan (reads of all batches in order, what iterating over the store amounts to), a
+        read just past the visible end, or len(store) / i in store / len(store.array)."""
+        r = self.rng
+        if r.random() >= p:
+            return
+        k = r.choices(['read', 'scan', 'readpast', 'len', 'contains', 'arraylen'], [40, 14, 6, 14, 13, 13])[0]
+        if k == 'read':
+            if nb == 0:
+                return
+            ops.append(['read', r.randrange(nb)])
+        elif k == 'scan':
+            if nb == 0:
+                return
+            ops.extend(['read', i] for i in range(nb))
+        elif k == 'readpast':
+            ops.append(['read', nb])
+        elif k == 'contains':
+            ops.append(['query', 'contains', r.randint(0, nb + 1)])
+        else:
+            ops.append(['query', k])
+        self.bump('%s=%s' % (tag, k))
+
     def gen_history(self, malformed):
         r = self.rng
         case = dict(dtype=r.choice(DTYPES), rowshape=list(r.choice(SHAPES)), bs=r.randint(1, 4), ops=[])
-        n = r.randint(4, 11)
+        n = r.randint(4, 12)
+        pq = r.choice([0.0, 0.2, 0.35, 0.5])     # how densely queries are interleaved in this history
         nb = 0          # expected number of batches
         nxt = [1]
         closed = False
@@ -542,8 +641,85 @@ class C06(PropCheck):
                 else:
                     ops.append(['set', nb, 'baddtype', vals()])
             self.bump('op=' + k)
+            if k != 'read':
+                self.add_queries(ops, nb, pq)
         if r.random() < 0.3 and not closed:
             ops.append(['close'])
+        return case
+
+    def gen_durable(self):
+        """Durability-ordering stream: a valid history that starts with one to three appends and a
+        flush-like operation and then runs two to five segments.  Each segment first brings the object
+        into one of the four states (header pending or not) x (memmap present or not) -- by an append
+        (pending, memmap dropped), a flush (clean, memmap kept), a reopen/pickle (clean, memmap dropped), a
+        read or scan (memmap created) -- sprinkles further queries, and then performs one content-changing
+        operation (overwrite of any batch, append, delete-last, clear).  The history ends as it is: store
+        open, nothing flushed, nothing closed.  The kill points include every memmap write and the end of
+        the history, so what is judged is the order in which header and data reached the OS in every
+        state the object can be in when the change is made."""
+        r = self.rng
+        case = dict(dtype=r.choice(DTYPES), rowshape=list(r.choice(SHAPES)), bs=r.randint(1, 3), ops=[])
+        ops = case['ops']
+        nxt = [1]
+
+        def vals():
+            v = list(range(nxt[0], nxt[0] + case['bs']))
+            nxt[0] += case['bs']
+            return v
+        pq = r.choice([0.2, 0.5, 0.8])
+        nb = r.randint(1, 3)
+        for i in range(nb):
+            ops.append(['set', i, 'ok', vals()])
+            if i + 1 < nb:
+                self.add_queries(ops, i + 1, 0.3, 'dq')
+        fl = r.choice(['flush', 'flush', 'reopen', 'pickle'])
+        ops.append([fl])
+        pend, mm = False, False       # what the generator expects the object to have (only steers the choice)
+        for seg in range(r.randint(2, 5)):
+            want_pend, want_mm = r.random() < 0.5, r.random() < 0.5
+            if want_pend:
+                if not pend:
+                    ops.append(['set', nb, 'ok', vals()])
+                    nb += 1
+                    pend, mm = True, False
+            elif pend or (mm and not want_mm):
+                k = 'flush' if (want_mm or not mm) and r.random() < 0.8 else r.choice(['reopen', 'pickle'])
+                ops.append([k])
+                pend = False
+                if k != 'flush':
+                    mm = False
+            if want_mm and not mm and nb > 0:
+                if r.random() < 0.75:
+                    ops.append(['read', r.randrange(nb)])
+                else:
+                    ops.extend(['read', i] for i in range(nb))
+                mm = True
+            self.bump('durable_state=%s,%s' % ('pending' if pend else 'clean', 'memmap' if mm else 'nomemmap'))
+            self.add_queries(ops, nb, pq, 'dq')
+            if ops[-1][0] == 'read':
+                mm = True
+            k = r.choices(['over', 'append', 'del', 'clear'], [55, 20, 20, 5])[0]
+            if k in ('over', 'del') and nb == 0:
+                k = 'append'
+            if k == 'over':
+                ops.append(['set', r.randrange(nb), 'ok', vals()])
+                pend, mm = False, True
+            elif k == 'append':
+                ops.append(['set', nb, 'ok', vals()])
+                nb += 1
+                pend, mm = True, False
+            elif k == 'del':
+                ops.append(['del', nb - 1])
+                nb -= 1
+                pend, mm = False, False
+            else:
+                ops.append(['clear'])
+                pend, mm = (nb == 0), False
+                nb = 0
+            self.bump('durable_op=' + k)
+            self.add_queries(ops, nb, pq, 'dq')
+            if ops[-1][0] == 'read':
+                mm = True
         return case
 
     def gen_open_history(self):
@@ -604,6 +780,8 @@ class C06(PropCheck):
             else:
                 ops.append([k])
             self.bump('open_op=' + k)
+            if k != 'read':
+                self.add_queries(ops, nb, 0.25, 'open_q')
         if r.random() < 0.3:
             ops.append(['close'])
         return case
@@ -665,6 +843,11 @@ class C06(PropCheck):
         A, B, X = [1, 2], [3, 4], [5, 6]
         base = dict(dtype='<f8', rowshape=[3], bs=2)
         yield dict(base, ops=[['set', 0, 'ok', A], ['set', 1, 'ok', B], ['reopen'], ['clear'], ['set', 0, 'ok', X], ['pickle'], ['set', 0, 'ok', B]])
+        # the history of C06_unflushed_header_refuted / C06_example_read_then_overwrite (Properties/C06.v), with
+        # every kind of query between the append and the overwrite, ending with the store open
+        yield dict(base, ops=[['set', 0, 'ok', A], ['flush'], ['set', 1, 'ok', B], ['query', 'len'], ['read', 0], ['query', 'contains', 1],
+                              ['query', 'arraylen'], ['set', 0, 'ok', X]])
+        self.bump('stream=theorem-witness')
         for i in range(n):
             malformed = (i % 5 == 4)
             case = self.gen_history(malformed)
@@ -672,6 +855,13 @@ class C06(PropCheck):
             self.bump('dtype=' + case['dtype'])
             self.bump('rowshape=' + str(tuple(case['rowshape'])))
             self.bump('bs=%d' % case['bs'])
+            yield case
+        # durability ordering: flush, then content-changing operations densely interleaved with queries, no
+        # flush/close at the end
+        for i in range(24 if self.tier == 'quick' else 200):
+            self.bump('stream=durable')
+            case = self.gen_durable()
+            self.bump('durable_bs=%d' % case['bs'])
             yield case
         # prefix stores (n_batches < batches in the file).  Generated after the histories above so that
         # those stay the same for a given seed.
@@ -729,7 +919,7 @@ class C06(PropCheck):
         logs, _ = in_child(lambda: run_history(case, None, False, f2))
         final = load_cells(f2 + '.npy')
         os.path.exists(f2 + '.npy') and os.remove(f2 + '.npy')
-        total = sum(1 for l in logs for e in l if e[0] != 'mem')
+        total = sum(len(l) for l in logs)      # every low-level operation is a kill point, memmap writes included
         crash = []
         for k in range(total + 1):
             f3 = self.fresh_name()
@@ -737,6 +927,9 @@ class C06(PropCheck):
             crash.append([k, load_cells(f3 + '.npy')])
             os.path.exists(f3 + '.npy') and os.remove(f3 + '.npy')
         self.bump('crash_points', total + 1)
+        self.bump('crash_points_at_or_after_memmap_write', sum(1 for l in logs for e in l if e[0] == 'mem'))
+        for key in history_shape(case['ops'], logs):
+            self.bump(key)
         return dict(logs=logs, logs_obs=logs_obs, obs=obs, crash=crash, final=final)
 
     def py_check(self, case, out):
